@@ -144,6 +144,59 @@ def check(rep, d):
         rep.fail('C06:foliate.no_interchanger_error', 'foliate raised InterchangerError', r)
 
 
+def check_rigid(rep):
+    """rigid diagrams: with the interchanger-only normaliser passed explicitly the normal form is reached by interchanges
+    alone (caps and cups stay); with the default one (snake removal first, C07) the result is a fixed point for the
+    requested side and is the normal form of the same diagram written without the snake"""
+    from discopy import rigid
+    from collections import Counter
+    Ty, Box, Id, Cup, Cap = rigid.Ty, rigid.Box, rigid.Id, rigid.Cup, rigid.Cap
+    n = Ty('n')
+    snakes = {'left snake': Cap(n, n.l) @ Id(n) >> Id(n) @ Cup(n.l, n), 'right snake': Id(n) @ Cap(n.r, n) >> Cup(n, n.r) @ Id(n),
+              'none': Id(n)}
+    a, h = Box('a', Ty(), n @ n), Box('h', n @ n, Ty())
+    f, g, k = Box('f', n, n), Box('g', n, n), Box('k', n, n @ n)
+    members = {}
+    for name, sn in snakes.items():
+        members[name] = [a >> sn @ Id(n) >> f @ g >> h, a >> Id(n) @ sn >> Id(n) @ g >> f @ Id(n) >> h,
+                         a >> f @ Id(n) >> sn @ g >> h, a >> sn @ sn >> Id(n) @ g >> f @ Id(n) >> Id(n) @ f >> h,
+                         a >> f @ g >> sn @ Id(n) >> Id(n) @ g >> h]
+    for name, ds in members.items():
+        for idx, d in enumerate(ds):
+            r = '%s: %r' % (name, d)
+            rep.case(('rigid', r))
+            for left in (False, True):
+                tag = 'left' if left else 'right'
+                # (1) interchanges alone when asked for
+                try:
+                    with common.time_limit(30):
+                        got = d.normal_form(normalizer=monoidal.Diagram.normalize, left=left)
+                        want = monoidal.Diagram.normal_form(d, left=left)
+                except Exception as e:      # noqa
+                    rep.fail('C06:rigid.no_exception', 'normal_form(normalizer=monoidal.Diagram.normalize) raised %r' % (e,), r)
+                    continue
+                if Counter(map(repr, got.boxes)) != Counter(map(repr, d.boxes)):
+                    rep.fail('C06:rigid.same_boxes', '%s normal form with the interchanger-only normaliser has other boxes: %r' % (tag, got), r)
+                elif got != want or (len(d) <= 7 and key(got) not in eq_class(d, limit=4000)):
+                    rep.fail('C06:rigid.reachable', '%s normal form with the interchanger-only normaliser is not the monoidal normal form' % tag, r)
+                # (2) default normaliser: fixed point on the requested side, equal to the normal form without the snake
+                try:
+                    with common.time_limit(30):
+                        nfd = d.normal_form(left=left)
+                        again = nfd.normal_form(left=left)
+                        plain = members['none'][idx].normal_form(left=left)
+                        plain_m = monoidal.Diagram.normal_form(members['none'][idx], left=left)
+                except Exception as e:      # noqa
+                    rep.fail('C06:rigid.no_exception', 'normal_form(left=%r) raised %r' % (left, e), r)
+                    continue
+                if again != nfd:
+                    rep.fail('C06:nf.idempotent', '%s normal form of a rigid diagram is not a fixed point' % tag, r)
+                if list(itertools.islice(monoidal.Diagram.normalize(nfd, left=left), 1)):
+                    rep.fail('C06:nf.no_move_left', 'normalize(left=%r) still rewrites the %s normal form of a rigid diagram' % (left, tag), r)
+                if nfd != plain or plain != plain_m:
+                    rep.fail('C06:nf.canonical', '%s normal form differs from that of the same diagram without the snake' % tag, r)
+
+
 def spiral(n, mirror=False):
     Ty, Box, Id = monoidal.Ty, monoidal.Box, monoidal.Id
     x = Ty('x')
@@ -253,6 +306,8 @@ def _run(tier, seed, shard, rep_box):
             >> Box('merge', x @ x, x) @ Id(x) >> b2
         for d in (base[::-1], base.dagger(), base[1:], base[:-1], base[::-1][1:], (base >> base[::-1])[2:9], base[4:1:-1]):
             check(rep, d)
+    if shard[0] == 4 % shard[1]:
+        check_rigid(rep)
     # long connected diagrams (spirals and their mirror images): the number of interchanges grows cubically with the number of
     # boxes (4, 20, 56, 120, 220 moves for 1..5 cups), far beyond what the enumerated diagrams need
     if shard[0] == 2 % shard[1]:
